@@ -1294,7 +1294,7 @@ sqascii_ReadWindow(ESL_SQFILE *sqfp, int C, int W, ESL_SQ *sq)
 
     /* Now position for a subseq fetch of <start..end> on fwd strand, using SSI offset calc  */
     ESL_DASSERT1(( sq->doff != 0 ));
-    if (ascii->bpl == 0 || ascii->rpl == 0)      /* no help; brute force resolution. */
+    if (ascii->bpl <= 0 || ascii->rpl <= 0)      /* unset (-1) or invalidated (0): no help; brute force resolution. */
       {
         offset       = sq->doff;
         actual_start = 1;
